@@ -49,3 +49,13 @@ for nm, has_a, has_g in (('a_row', 1, 0), ('row', 1, 1), ('g_row', 0, 1), ('a_ir
     if has_g:
         UNITS.append(Unit('front.basic.%s.guard_call' % nm, ['C14', 'C02'], 'front', Part(SD, sc, 'guard_call ( FSM & fsm , Event const & evt , SourceState & , TargetState & , AllStates & )'),
             '_Bool basic_guard_call(fsm_t* fsm, event_t evt)', 'functor_row.spec.h', defines=['UNIT_BASIC_GUARD=1'], xform=xb, replay=['order']))
+
+UNITS.append(Unit('front.ActionSequence_.call3', ['C14', 'C02'], 'front',
+    Part(FR, ['struct ActionSequence_', 'struct Call {'], 'void operator ( ) ( wrap < FCT > const & )',
+         xform=back_xform([], refparams=(), rewrites=[dict(name='functor-call', pat='FCT ( ) ( evt_ , fsm_ , state_ ) ;', rep='call_seq_action3 ( FCT , evt_ , fsm_ , state_ ) ;', min=0, max=1)])),
+    'void action_sequence_call3(event_t evt, fsm_t* fsm, stref_t state)', 'functor_row.spec.h', defines=['UNIT_SEQ3=1'],
+    compose='const event_t evt_ = evt; fsm_t* const fsm_ = fsm; const stref_t state_ = state;\n'
+            'for (type_t FCT = 0; FCT != g_nseq; ++FCT)\n__CPROVER_assigns(FCT, g_anext)\n__CPROVER_loop_invariant(0 <= FCT && FCT <= g_nseq && g_anext == FCT)\n__CPROVER_decreases(g_nseq - FCT)\n{ @0 }',
+    must_contain=[(FR, 'Call ( EVT & evt , FSM & fsm , STATE & state ) : evt_ ( evt ) , fsm_ ( fsm ) , state_ ( state ) { }'),
+                  (FR, 'for_each < Sequence , wrap < _1 > > ( Call < EVT , FSM , STATE > ( evt , fsm , state ) ) ;')],
+    force_loop_contracts=True, replay=['order']))
